@@ -89,7 +89,8 @@ def _unsync():
         rest = mm.group(4).lstrip(", ")
         sym_time = name.endswith("_sym")
         props = {"op_get": GET, "op_contains": CON, "op_iter": ITER, "op_invalidate": INV, "op_invalidate_all": INV,
-                 "op_invalidate_if": INV, "op_evict_lru": {"C04", "C12", "C10"}, "op_evict_expired": {"C10", "C03", "C11"}}.get(op)
+                 "op_invalidate_if": INV, "op_evict_lru": {"C04", "C12", "C10"}, "op_evict_expired": {"C10", "C03", "C11"},
+                 "op_get_overcap": GET | {"C04"}, "op_insert_overcap": INSN}.get(op)
         if op == "op_insert":
             props = INSU if "_upd" in name else INSN
         props = set(props) | {"C08"}
@@ -97,20 +98,25 @@ def _unsync():
         if tti: props |= {"C06"}
         if "nocap" in name: props |= {"C17"}
         if op == "op_evict_lru" and "within" in name: props |= {"C03"}
-        tier = "thorough" if sym_time or "_n3_" in name or name in ("purge_both_two_of_three_w",) else "quick"
+        tier = "thorough" if sym_time or "_n3_" in name or name in ("purge_both_two_of_three_w", "get0_ttl_on_deadline_realpurge", "get1_tti_realpurge", "contains1_max_dur_realpurge") else "quick"
         prim = {"op_get": {"C01", "C12", "C14"}, "op_contains": {"C15"}, "op_iter": {"C16", "C15"},
                 "op_invalidate": {"C07"}, "op_invalidate_all": {"C07", "C10"}, "op_invalidate_if": {"C07", "C10"},
-                "op_evict_lru": {"C04", "C12"}, "op_evict_expired": {"C10", "C03", "C11"}}.get(op, set())
+                "op_evict_lru": {"C04", "C12"}, "op_evict_expired": {"C10", "C03", "C11"},
+                "op_get_overcap": {"C04", "C12"}, "op_insert_overcap": {"C04", "C03"}}.get(op, set())
         if op == "op_insert":
             prim = {"C01", "C10"} if "_upd" in name else {"C03", "C04", "C13", "C12"}
         prim = set(prim)
         if ttl: prim |= {"C05"}
         if tti: prim |= {"C06"}
         if name in ("get_hit0_n2_full", "insert_new_n2_full", "insert_upd_n2_w_grow", "invalidate_if_n2_w_m0001", "iter_n2", "contains_n2_full",
-                    "evict_lru_n2_grown", "purge_tti_on_deadline_w", "get0_ttl_on_deadline_realpurge", "insert_new_n2_zero_victim", "invalidate_all_both"):
+                    "evict_lru_n2_grown", "purge_tti_on_deadline_w", "contains0_ttl_realpurge", "insert_new_n2_zero_victim", "invalidate_all_both"):
             prim |= {"C08"}
         if name in ("insert_new_n2_room", "insert_new_n2_w_fits", "insert_new_ttl_room", "purge_both_zero_dur_w", "invalidate1_n2_w"):
             prim |= {"C11"}
+        if name == "insert_new_n2_w_no_prefix":
+            prim = {"C13", "C12"}
+        if name == "insert_upd0_n2_w_oversize":
+            prim = {"C01", "C04"}
         if name in ("insert_new_n2_full", "insert_new_n2_w_admit", "insert_upd_n2_w_shrink", "insert_upd_n2_w_grow", "invalidate1_n2_w", "evict_lru_n2_grown"):
             prim |= {"C10"}
         if name in ("contains_n2_full", "iter_n2", "insert_new_n2_full", "invalidate0_n2"):
@@ -228,6 +234,11 @@ add("housekeeper.rs", "try_sync_releases_the_flag_on_every_path", {"C09", "C08"}
 add("housekeeper.rs", "full_queue_always_triggers_maintenance", {"C09", "C08"}, "quick", 10, "should_apply_* true whenever the queue is at its flush point (both housekeeping regimes); queue sizes >= flush points", "all queue lengths and clock readings")
 add("sync_cache.rs", "schedule_write_op_on_a_full_queue_runs_maintenance_and_returns", {"C09", "C08"}, "quick", 60, "schedule_write_op with a FULL queue: runs maintenance once, enqueues, never sleeps", "model queue capacity 2; draining InnerSync")
 add("sync_cache.rs", "schedule_write_op_with_room_enqueues_once", {"C09", "C08"}, "quick", 60, "schedule_write_op with room: flag free or busy", "model queue capacity 2")
+
+add("sync_base_cache.rs", "s_eviction_counters_never_overflow", {"C10", "C08"}, "quick", 2, "EvictionCounters saturating arithmetic", "all u64 totals, u32 weights")
+add("sync_cache.rs", "invalidate_of_a_pending_insert_queues_its_removal", {"C07", "C11", "C10"}, "quick", 150, "Cache::invalidate of a key whose Upsert is still queued", "n=1 admitted + 1 pending; model queue 4")
+add("sync_builder.rs", "sync_policy_reports_exactly_the_knobs", {"C17"}, "quick", 100, "sync builder: every knob combination -> policy()", "all capacities, durations <= 1000 y")
+add("sync_builder.rs", "sync_builder_new_equals_max_capacity", {"C17"}, "quick", 100, "sync CacheBuilder::new(n) == max_capacity(n); initial_capacity inert for policy", "all n")
 
 PROPS = {}
 QUICK_UNSYNC_CAP = 14
